@@ -205,6 +205,35 @@ def r1(ctx: Ctx, fn: Func, rule: str, deliver_direct: bool, deliver_funcs: set[s
             if n is head_n:
                 uses.append(n)
         ctx.ob(rule, fn, f"missing bytes ({var} == {sentinel}) leave the function before anything is consumed, delivered or re-read", not uses, f"with {var} == {sentinel!r} the loop still reaches {[u.text(40) for u in uses[:2]]}: a partial frame would be lost or mis-parsed", node=rn.ast)
+        # converse: only the sentinel may make the loop give up - every real value goes on to a consume (or an error report)
+        samples = [0, 1, 127, 128, 16384, 2**32] if sentinel == -1 else [b"", b"\x00", b"x" * 3]
+        stuck = []
+        for val in samples:
+            def classify_v(n: Node, var=var, val=val):
+                t = n.ast
+                if t is None or var not in {x.id for x in ast.walk(t) if isinstance(x, ast.Name)}:
+                    return None
+
+                class _R(ast.NodeTransformer):
+                    def visit_NamedExpr(self, node: ast.NamedExpr):  # noqa: N802
+                        if node.target.id == var:
+                            return ast.Name(id=var, ctx=ast.Load())
+                        return self.generic_visit(node)
+
+                import copy
+
+                t2 = _R().visit(copy.deepcopy(t))
+                ast.fix_missing_locations(t2)
+                v = ctx.sym.eval(t2, fn.module.name, {var: val})
+                if v is not Unknown and isinstance(v, bool):
+                    return ("T", v)
+                return None
+
+            reach_v = walk(g, {"T": True}, classify_v, start=rn)
+            goes_on = any(({"consume", "err"} & set(loop_events(ctx, fn, n, deliver_funcs))) for n in reach_v if n is not rn and n.ast is not None and n.kind in ("stmt", "cond"))
+            if not goes_on:
+                stuck.append(val if not isinstance(val, bytes) else f"{len(val)} byte(s)")
+        ctx.ob(rule, fn, f"only the sentinel stops the parse: every real value of {var} goes on to the consume", not stuck, f"with {var} in {stuck} the loop gives up without consuming: a valid frame (e.g. type 0 / empty payload) stalls the stream forever", node=rn.ast)
 
 
 # ----------------------------------------------------------------------- R2
@@ -259,28 +288,31 @@ def r3(ctx: Ctx) -> None:
     # ---- _add_to_buffer
     fn = ctx.repo.func(base, "APIFrameHelper._add_to_buffer")
     pname = [p for p in fn.param_names() if p != "self"][0]
-    X = Buf(("X", pname))
-    lenX = Lin.sym(f"len({pname})")
+    X = Buf(("X", pname))  # the chunk as received (any bytes-like type)
+    Xb = Buf(("Xb", pname))  # its bytes: bytes(data), or data itself where `type(data) is bytes` holds
+    lenX = Lin.sym(f"len({pname})")  # number of BYTES; len() of an un-normalised chunk is items(data), a different symbol
     it = _interp(ctx, fn, {pname: X})
     n = 0
     for st, end in it.paths():
         n += 1
         Nf, Bf = st.env.get("self._buffer_len"), st.env.get("self._buffer")
         tag = f"path[{' & '.join(map(repr, st.conds)) or 'true'}]"
-        ctx.ob("C01.R3", fn, f"append: length grows by len(data) on {tag}", isinstance(Nf, Lin) and Nf == N + lenX, f"_buffer_len becomes {Nf!r}, expected N+len(data)")
+        tag = tag[:-1] + "".join(f" & {'' if v else 'not '}{t}" for t, v in st.other_conds) + "]"
+        ctx.ob("C01.R3", fn, f"append: length grows by the number of bytes of the chunk on {tag}", isinstance(Nf, Lin) and Nf == N + lenX, f"_buffer_len becomes {Nf!r}, expected N+len(bytes(data)) (len() of a chunk that is not known to be `bytes` counts items, e.g. a cast memoryview)")
         empty = _has(st.conds, Cond(N, "=="))
         nonempty = _has(st.conds, Cond(N, "!="))
+        cat_ok = Bf in (Buf(("cat", B, Xb)), Buf(("cat", B, X)))  # bytes + bytes-like concatenates the raw bytes either way
         if empty:
-            ok = Bf == X
-            exp = "data (buffer was empty)"
+            ok = Bf == Xb
+            exp = "bytes(data) (buffer was empty; the chunk itself only where it is known to be `bytes`, never an aliased bytearray/memoryview)"
         elif nonempty:
-            ok = Bf == Buf(("cat", B, X))
+            ok = cat_ok
             exp = "old buffer + data"
         else:
-            ok = Bf == Buf(("cat", B, X))
+            ok = cat_ok
             exp = "old buffer + data (emptiness not tested on this path)"
         ctx.ob("C01.R3", fn, f"append: buffer content on {tag}", ok, f"_buffer becomes {Bf!r}, expected {exp}: the retained tail of a partial frame would be lost or duplicated")
-    ctx.count("C01.R3.add", n, 2, "paths of _add_to_buffer")
+    ctx.count("C01.R3.add", n, 4, "paths of _add_to_buffer")
     # ---- _remove_from_buffer
     fn = ctx.repo.func(base, "APIFrameHelper._remove_from_buffer")
     it = _interp(ctx, fn, {})
